@@ -583,8 +583,17 @@ impl Runner {
             self.bogus_ctxs.push(id);
             (Frame::builder("xs.context", Scru128Id::from(home)).id(Scru128Id::from(id)).build(), "registration-outside-zero-context")
         } else if mode == 3 && self.profile.import_registrations {
-            // a context registration arriving by import (forever)
-            let id = self.fresh_import_id();
+            // a context registration arriving by import (forever); half of them with an id on a field boundary of
+            // the id layout (trailing 8 / 16 / 24 / 32 / 56 bits all ones): "the next context id" then carries
+            let mut id = self.fresh_import_id();
+            if self.rng.chance(500) {
+                let bits = [8u32, 16, 24, 32, 56][self.rng.below(5)];
+                let cand = id | ((1u128 << bits) - 1);
+                if !self.model.frames.contains_key(&cand) && !self.model.ephemerals.contains_key(&cand) {
+                    id = cand;
+                    self.res.seen("boundary_context_ids", format!("low-{}-bits-set", bits));
+                }
+            }
             let ttl = if self.rng.chance(500) { Some(TTL::Forever) } else { None };
             (Frame::builder("xs.context", ZERO_CONTEXT).id(Scru128Id::from(id)).maybe_ttl(ttl).build(), "registration")
         } else {
